@@ -38,6 +38,10 @@ SCRIPTS = {
     "retr-dstop": ["EPSV", "@data", "@dstop", "RETR d/f"],
     "list-dstop": ["PASV", "@data", "@dstop", "LIST"],
     "mlsd-dstop": ["EPSV", "@data", "@dstop", "MLSD d"],
+    # a login command sent while a transfer is open (upload in progress / no data connection yet / data peer not reading)
+    "stor-then-user": ["EPSV", "@data", "STOR new", "@dsend 0123", "USER anonymous", "PWD"],
+    "nodata-then-user": ["EPSV", "RETR d/f", "USER anonymous"],
+    "retr-dstop-then-user": ["EPSV", "@data", "@dstop", "RETR d/f", "USER anonymous"],
 }
 # sessions that end with QUIT while the peer does not read the replies (only the position after the QUIT is examined)
 QUIT_SCRIPTS = {
@@ -452,7 +456,9 @@ def build_items(tier):
                 last = (["USER anonymous"] + script)[k]
                 if not last.startswith("@"):
                     items.append(({"cfg": list(cfg), "script": name, "k": k, "kind": "noread"}, 0, []))
-                if cfg == (IDLE, SOCK, WF) or (tier != "quick" and cfg != (None, None, None)):
+                # (not for the scripts that re-login in the middle: the 5 s the old login's logout notification takes
+                # there are the server working on a command, not the peer being silent)
+                if (cfg == (IDLE, SOCK, WF) or (tier != "quick" and cfg != (None, None, None))) and not name.endswith("-then-user"):
                     items.append(({"cfg": list(cfg), "script": name, "k": k, "kind": "silent", "slow_logout": True}, 0, []))
                 if tier != "quick":
                     items.append(({"cfg": list(cfg), "script": name, "k": k, "kind": "silent", "explore": True},
